@@ -348,7 +348,9 @@ class AutoScaler(Entity):
         # Schedule next evaluation
         return [
             Event(
-                time=self.now + Duration.from_seconds(self._evaluation_interval),
+                # A positive evaluation interval below the 1 ns clock resolution truncates to
+                # a zero Duration; keep the evaluation loop moving forward in time.
+                time=self.now + max(Duration.from_seconds(self._evaluation_interval), Duration(1)),
                 event_type="_autoscaler_evaluate",
                 target=self,
                 daemon=True,
